@@ -45,31 +45,37 @@ func (a *arena) alloc(n, align int) unsafe.Pointer {
 	return p
 }
 
+// Every slice has spareCap elements of spare capacity behind its length (see
+// arena_heap.go): an append within capacity writes into the read-only mapping
+// and faults.
 func (a *arena) u64s(x []uint64) []uint64 {
-	if len(x) == 0 {
-		return unsafe.Slice((*uint64)(a.alloc(8, 8)), 1)[:0]
-	}
-	out := unsafe.Slice((*uint64)(a.alloc(8*len(x), 8)), len(x))
+	n := len(x) + spareCap
+	out := unsafe.Slice((*uint64)(a.alloc(8*n, 8)), n)
 	copy(out, x)
-	return out
+	for i := len(x); i < n; i++ {
+		out[i] = sentinel64
+	}
+	return out[:len(x)]
 }
 
 func (a *arena) i32s(x []int32) []int32 {
-	if len(x) == 0 {
-		return unsafe.Slice((*int32)(a.alloc(4, 4)), 1)[:0]
-	}
-	out := unsafe.Slice((*int32)(a.alloc(4*len(x), 4)), len(x))
+	n := len(x) + spareCap
+	out := unsafe.Slice((*int32)(a.alloc(4*n, 4)), n)
 	copy(out, x)
-	return out
+	for i := len(x); i < n; i++ {
+		out[i] = sentinel32
+	}
+	return out[:len(x)]
 }
 
 func (a *arena) bytes(x []byte) []byte {
-	if len(x) == 0 {
-		return unsafe.Slice((*byte)(a.alloc(1, 1)), 1)[:0]
-	}
-	out := unsafe.Slice((*byte)(a.alloc(len(x), 1)), len(x))
+	n := len(x) + spareCap
+	out := unsafe.Slice((*byte)(a.alloc(n, 1)), n)
 	copy(out, x)
-	return out
+	for i := len(x); i < n; i++ {
+		out[i] = sentinel8
+	}
+	return out[:len(x)]
 }
 
 func (a *arena) strs(x []string) []string {
@@ -81,6 +87,7 @@ func (a *arena) strs(x []string) []string {
 			continue
 		}
 		hdrs[i] = unsafe.String(&b[0], len(b))
+		_ = b[:cap(b)]
 	}
 	return hdrs
 }
